@@ -767,6 +767,14 @@ func genRandom(r *rng.R, n int) *caseIn {
 	via := r.Pick(34, 22, 40, 4)
 	jointOrigin := via == 3 || (via == 2 && r.Pct(6))
 	c.Origin, c.Leader = genOrigin(r, n, jointOrigin)
+	// a region cannot have a peer on a store PD does not know: "absent" is only for stores without origin peer
+	for _, p := range c.Origin {
+		for i := range c.Stores {
+			if c.Stores[i].ID == p.Store && c.Stores[i].State == "absent" {
+				c.Stores[i].State = "up"
+			}
+		}
+	}
 	for _, p := range c.Origin {
 		if p.Store != c.Leader && r.Pct(5) {
 			c.Pending = append(c.Pending, p.Store)
